@@ -119,7 +119,7 @@ func c07Gen(r *Rand, tier string, i int) Scenario {
 					lens = append(lens, 3)
 					break
 				}
-				lens = append(lens, PickOf(r, 5000, 33000, 60000))
+				lens = append(lens, PickOf(r, 5000, 33000, 60000, 70000, 150000))
 			default:
 				lens = append(lens, r.Intn(80))
 			}
@@ -458,7 +458,7 @@ func init() {
 		ID:    "C07",
 		Level: "exploration",
 		Rule: "seeded generation of non-plain dcat/dgrep sessions (30% with terminal colours, read with the escape sequences removed; unterminated last lines; gzip/zstd sources) against 1-5 simulated dservers (distinct host names) reading 1-4 files through globs with '*' in " +
-			"different path components, tagged lines of 0-60000 bytes (longer than one SSH packet and than the 32 KiB copy buffer), per-server link latency, " +
+			"different path components, tagged lines of 0-150000 bytes (longer than one SSH packet, than the 32 KiB copy buffer and than 64 KiB), per-server link latency, " +
 			"network chunking, MaxConcurrentCats 1-3, consumer pacing; non-trivial = at least one line and several hosts or files; distinct = (scenario shape, schedule hash)",
 		Real: []string{"internal/clients (one handler per connection)", "internal/server x N (real SSH servers)", "internal/server/handlers (makeGlobID, Read framing)",
 			"internal/io/dlog stdout logger", "x/crypto/ssh over simnet"},
